@@ -1,7 +1,9 @@
 /-
   C12 — types of the data that /verif/extract/grammar.go regenerates from
   zitiql/ZitiQl.g4 (shape of the `boolExpr` alternatives, keyword token definitions) and from
-  zitiql/zitiql_parser.go (the precedence numbers of the generated `boolExpr(_p int)`).
+  zitiql/zitiql_parser.go (the precedence numbers of the generated `boolExpr(_p int)`), from
+  ast/bolt_listener.go (how the four listener methods are written) and from the typing /
+  evaluation functions of package `ast` (`TransformShape`).
   The regenerated values live in StorageModel/Generated/Grammar.lean.
 -/
 namespace StorageModel.C12
@@ -95,6 +97,38 @@ def pinnedShape : ListenerShape :=
     is written in `ExitGroup` and read in `ExitAndExpr`, nowhere else -/
 def repairedShape : ListenerShape :=
   { andExit := .reassoc, orExit := .plain, notExit := .plain, groupExit := .marks, groupedUses := 2 }
+
+/-- Whether a function body (go/printer text, comments and layout removed) is the one the model
+    interprets (`plain`), is missing (`absent`), or is anything else (`unknown`). -/
+inductive BodyForm where
+  | plain | absent | unknown
+  deriving DecidableEq, Repr
+
+/-- What happens to the boolean structure AFTER the listener (typing and evaluation), as
+    /verif/extract finds it in package `ast`:
+    * `binTransform`  — `BooleanLogicExprNode.TypeTransformBool` (ast/node_convert.go): type both
+                        operands, fail if one is not a BoolNode, return `&AndExprNode{left, right}` /
+                        `&OrExprNode{left, right}` — nothing else (no simplification, no rewrite);
+    * `notTransform`  — `UntypedNotExprNode.TypeTransformBool`: type the operand, fail if it is not a
+                        BoolNode, return `&NotExprNode{expr: boolNode}`;
+    * `andEval` / `orEval` / `notEval` — `EvalBool` of `AndExprNode` / `OrExprNode` / `NotExprNode`
+                        (ast/node_expr.go): short-circuit conjunction / disjunction, negation;
+    * `glue`          — `transformTypes` (node_convert.go), `transformBools`, `PostProcess` (helper.go)
+                        and `untypedQueryNode.TypeTransformBool` (node_query.go): each child is
+                        replaced by its typed form once, nothing is rewritten afterwards. -/
+structure TransformShape where
+  binTransform : BodyForm
+  notTransform : BodyForm
+  andEval : BodyForm
+  orEval : BodyForm
+  notEval : BodyForm
+  glue : BodyForm
+  deriving DecidableEq, Repr
+
+/-- the typing / evaluation code that `transform` and `T.eval` (Skel.lean) follow -/
+def plainTransform : TransformShape :=
+  { binTransform := .plain, notTransform := .plain, andEval := .plain, orEval := .plain, notEval := .plain,
+    glue := .plain }
 
 /-- A keyword token of the lexer grammar as a sequence of letter fragments, each fragment being
     the set of characters it admits (`fragment A : [aA];`). -/
